@@ -30,6 +30,9 @@ class Engine:
         self.timeout_ms = timeout_ms
         self.concrete = False  # concrete (native) mode: no branching allowed
         self.fresh_solver_per_path = False
+        self.confirm = None  # callback(name, model) -> bool: does the model reproduce natively?
+        self.confirm_tries = 12
+        self.blocking_terms = lambda model: []
         self.values = None  # concrete input values (native mode)
         self._new_solver()
         self.trail = []
@@ -245,7 +248,24 @@ class Engine:
                         if r2 == "unsat":
                             self.stats["discharged"] += 1
                         elif r2 == "sat":
-                            failed.append((name, m2))
+                            # the encoding over-approximates in places (float ties, SQL edge noise): look for a
+                            # model that also reproduces natively before settling for the first one
+                            best = m2
+                            if self.confirm is not None and not self.confirm(name, m2):
+                                block = []
+                                for _ in range(self.confirm_tries):
+                                    vals = self.blocking_terms(m2)
+                                    if not vals:
+                                        break
+                                    block.append(z3.Or([t != v for t, v in vals]))
+                                    r3, m3 = self._check(z3.Not(ob), *block)
+                                    if r3 != "sat":
+                                        break
+                                    m2 = m3
+                                    if self.confirm(name, m3):
+                                        best = m3
+                                        break
+                            failed.append((name, best))
                         else:
                             self.inconclusive.append("unknown on obligation %s" % name)
             if on_path is not None:
